@@ -120,7 +120,8 @@ def run(ctx):
     bh = ctx.anchor(crate, HAS, "refusal")
     if bh is not None:
         t = r2.ret
-        ok = t[0] == 'op' and t[1] == 'lt' and t[3] == param(bh.param_names()[0]) and cval(t[4]) == T[0]
+        from rules.common import is_cmp
+        ok = is_cmp(t, 'lt', param(bh.param_names()[0]), lambda x: cval(x) == T[0])
         ctx.report("refusal", HAS + ":compares-with-T[0]", ok, "has_best_starting_depth(r) = %s" % show(t), at=bh.span)
         entry = [f for f in cmp_facts(r.facts)] if r.returns else []
         ok2 = any(op == "lt" and a == param(pname) and cval(c) == T[0] and pos for op, a, c, pos in entry)
